@@ -2,6 +2,10 @@
 """Regenerates MANIFEST.json from the table below (kept next to the checks so the two cannot drift)."""
 import json
 CLAIMED = {
+ 'C16': ('cut: to_string_moved on reference and range nodes with symbolic formula cell, target, cut area and paste offset - a reference to a cut cell points to where it went (same $ flags, #REF! off the grid), a range moves only if both corners are cut, everything else keeps its cell and gains the source sheet name when the formula changes sheet; ref_is_in_area = the rectangle test over the whole grid; copy: the A1 printer at the target cell shifts exactly the relative parts by the paste offset. Expected texts are built from $, number_to_column and the row number, not from the printer under test',
+         'outside: the moved-formula printer for operators/functions/arrays (parenthesisation, separators), clipboard orchestration, CF ranges and defined names under cut, values; coordinates within 120 rows x 30 columns'),
+ 'C34': ('F4 rewrite kernel (next_state, cycle_endpoint, cycle_token_text): on every reference/range token text assembled from symbolic sheet prefix, $ markers, letters of either case and digits, one F4 equals the cycle of the property (A1->$A$1->A$1->$A1, column-only/row-only toggle, letters upper-cased, prefix byte-identical) and four F4 return the upper-cased original; next_state has period exactly four; on any ASCII text <=4 (<=6 thorough) only $ markers and letter case change',
+         'outside: cycle_reference itself (re-tokenising, which references the cursor touches, returned cursor positions) - it needs the formula lexer; non-ASCII text'),
  'C01': ('inductive step on 19 operation kinds (set_columns_width/hidden, set_rows_height/hidden, frozen rows/columns, grid lines, sheet colour, hide/unhide/delete/new/move sheet, insert/delete rows and columns, move rows/columns): from an arbitrary cell-free workbook (<=2 sheets with a symbolic column descriptor and row record each, or <=3 sheets with symbolic visibility) `op; undo` restores every listed observable - sheet names/order/visibility/colour/ids, frozen panes, grid lines, links, and what column x / row y show (width, hidden, style) at symbolic probes',
          'outside: every operation whose diff carries cell content (input, arrays, clears, cell styles, borders, named styles, paste, autofill, defined names, conditional formats, rename/duplicate sheet, locale/timezone/name/theme) and every structural operation on a sheet that holds cells (parser, set_user_input, evaluator); selection/view state is not compared; pre-state built directly (intercepted Model::from_workbook), history built by the operation itself'),
  'C02': ('same family: `op; undo; redo` shows exactly what `op` showed; History alone: any sequence of <=5 push/undo/redo calls behaves as a cursor over the operation list (push truncates after the cursor, undo/redo return the operation they cross, stack sizes = cursor position)',
@@ -37,7 +41,6 @@ NA = {
  'C09': 'tree->String->tree through the recursive-descent parser and lexer with language tables; symbolic trees of useful depth degenerate to enumeration',
  'C10': 'same pipeline as C09 across five language tables loaded from bitcode data',
  'C11': 'not claimed: string-kernel panic-freedom harnesses (DESIGN 5) not built; measured cost of symbolic strings (60 s solver timeouts on digit-string round trips) made them unaffordable in the quick tier',
- 'C16': 'not claimed: move_formula/cut-paste reference arithmetic harness not built',
  'C17': 'sheet rename/duplicate rewrite every stored formula through parser and printer',
  'C18': 'display -> set_user_input round trip runs the number formatter (float->text) and the input interpreter end to end',
  'C19': 'not claimed: recogniser-vs-grammar harness not built (symbolic strings of length 7 cost minutes per harness in this engine)',
@@ -50,7 +53,6 @@ NA = {
  'C30': 'not claimed: style-pool harness over Styles (deep derived PartialEq on String-bearing structs) not built',
  'C31': 'not claimed: needs Model::set_cells_with_result (see C08)',
  'C32': 'defined names are re-parsed by three different parsers on every structural change; parser-bound like C09/C17',
- 'C34': 'not claimed: cycle_endpoint/cycle_token_text harness over symbolic ASCII text not built',
 }
 def main():
     import sys
